@@ -1,8 +1,47 @@
-(** C18 — I/O failures are reported, never masked, and leave the cache valid. (interim) *)
-From Coq Require Import List NArith String Bool Arith.
-From Kismet Require Import FS.Fs FS.Prog Ops.Ops.
+(** C18 — I/O failures are reported, never masked, and leave the cache valid.
+
+    Kernel-checked, for ARBITRARY call results (so for every fault at every
+    position, any number of them, combined with any interference):
+    - never masked: if set / put return success, a rename (set) or a link
+      accepted or answered EEXIST (put) onto the key's path was really issued
+      and accepted — no failure on the publication path turns into [Ok]
+      ([C18_set_success_means_published], [C18_put_success_means_published]);
+    - leave the cache valid: whatever fails, anywhere, in any participant, a
+      published value keeps its contents ([C18_faults_never_corrupt_published_contents],
+      the interleaving theorem, whose oracles include arbitrary injected faults);
+      confinement (C16), descriptor balance (C20) and the write discipline (C01)
+      hold for arbitrary results as well.
+    What "reported" requires beyond this (every non-absent error surfaces, the
+    documented exceptions aside) is established by the exhaustive single-fault
+    enumeration against this model (vlib/c18.py). *)
+From Coq Require Import List NArith ZArith String Bool Arith.
+From Kismet Require Import FS.Fs FS.Prog Spec.Wp Ops.Ops Conc.Pool Conc.Effect Conc.Immut Proofs.NeverMasked.
+Import ListNotations.
+
+Theorem C18_set_success_means_published : forall cfg k v w o,
+  let '(r, _, _, tr) := run (cache_set cfg k v) w o in is_ok r = true -> mon_run p_step false tr = Some true.
+Proof. intros. apply (success_means_published _ (pubs_cache_set cfg k v)). Qed.
+
+Theorem C18_put_success_means_published : forall cfg k v w o,
+  let '(r, _, _, tr) := run (cache_put cfg k v) w o in is_ok r = true -> mon_run p_step false tr = Some true.
+Proof. intros. apply (success_means_published _ (pubs_cache_put cfg k v)). Qed.
+
+(** For arbitrary results, not only those a run of the model produces. *)
+Theorem C18_never_masked_all_responses : forall cfg k v, pubs (cache_set cfg k v) /\ pubs (cache_put cfg k v).
+Proof. intros. split; [apply pubs_cache_set|apply pubs_cache_put]. Qed.
+
+(** The participants' oracles below are arbitrary: any of them may carry an
+    injected fault ([o_fault]) at any call. *)
+Theorem C18_faults_never_corrupt_published_contents :
+  forall A (ps : list (prog A * oracle)) f0 sched1 sched2 i D,
+  fds_wf f0 -> Forall (fun po => disciplined (fst po)) ps ->
+  let st1 := run_sched sched1 (spawn_all ps ([], f0)) in
+  data (snd st1) i = Some D -> i < next_ino (snd st1) -> NoRW i (snd st1) ->
+  data (snd (run_sched sched2 st1)) i = Some D.
+Proof. exact @immutable_from_any_reachable_state. Qed.
+
 (** The model's fault injection: a faulted call leaves the filesystem unchanged
-    and returns the error (the operation then continues with that result). *)
+    and returns the error (a failing close still releases the descriptor). *)
 Theorem C18_fault_semantics : forall w o c ord n er,
   o_fault o = Some (n, er) -> significant c = true -> n = o_ncalls o ->
   snd (do_call w o c ord) = RErr er /\
@@ -11,3 +50,23 @@ Proof.
   intros w o c ord n er Hf Hs Hn. unfold do_call. rewrite Hf, Hs, Hn, Nat.eqb_refl. cbn [andb].
   destruct c; cbn [fst snd]; auto.
 Qed.
+
+(** Non-vacuity: a set succeeds; a set whose first rename fails with EIO retries,
+    succeeds and has really published; a set of a missing source file reports the
+    error and the monitor saw no publication. *)
+Example C18_example :
+  let mk (f : fs) (p : path) (c : N) :=
+    let '(f1, i) := alloc_inode f (mkInode false [c] 292 100%Z 50%Z 1 true) in
+    set_names f1 ((p, i) :: names f1) in
+  let '(f0, d) := alloc_inode empty_fs (mkInode true [] 493 0%Z 0%Z 2 true) in
+  let f0 := set_names f0 ((["w"%string], d) :: names f0) in
+  let w := mkWorld (mk f0 ["v"%string] 66%N) 0 [] in
+  let cfg := mkStack 0 (Some (FPlain ["w"%string] 300)) [] None false ["systmp"%string] in
+  let k := mkKey "a"%string 1 2 in
+  let run_with (src : path) (flt : option (nat * errno)) :=
+    let '(r, _, _, tr) := run (cache_set cfg k src) w (mkOracle [1000; 1001]%Z [18446744073709551615%N] [] [] [] flt 0 1%Z Relatime) in
+    (is_ok r, mon_run p_step false tr) in
+  run_with ["v"%string] None = (true, Some true) /\
+  run_with ["v"%string] (Some (5%nat, EIO)) = (true, Some true) /\
+  run_with ["missing"%string] None = (false, Some false).
+Proof. vm_compute. repeat split. Qed.
